@@ -192,6 +192,87 @@ def rewritten_parameters(prog: Program, f: FuncInfo) -> List[Tuple[int, str]]:
     return out
 
 
+def _loop_exits(cfg: CFG, h) -> List:
+    """nodes through which the loop headed by h can be left other than by exhaustion or by raising"""
+    body0 = [e.dst for e in cfg.succ[h.id] if e.label == 'body']
+    out = []
+    if body0:
+        fwd = {body0[0].id} | cfg.reachable(body0[0], avoid_nodes=[h])
+        in_loop = {i for i in fwd if i != h.id and h.id in cfg.reachable(cfg.nodes[i])}
+        for u_id in sorted(in_loop):
+            for e in cfg.succ[u_id]:
+                if e.label == 'exc' or e.dst is h or e.dst.id in in_loop or e.dst.kind == 'raise' or isinstance(e.dst.ast, ast.Raise):
+                    continue
+                out.append(e.dst)
+    return out
+
+
+def _parameter_loops(ck: Check, prog: Program) -> None:
+    """Every parameter is looked at: the loops of the binder (signature) and of the documenters (pydantic params model, docstring
+    params) over the parameters end only by exhaustion — an excluded parameter is skipped (`continue`), it does not end the walk —
+    and the docstring documenter skips a name for each of the two reasons (listed in `exclude`, selected by the predicate) alone.
+    The OpenAPI extractor loops (request / response / errors) agree on which extractor wins."""
+    targets = [(BASEVAL, 'signature'), (PYD_EXTRACTOR, '_build_params_model'),
+               ('pjrpc.server.specs.extractors.docstring.DocstringSchemaExtractor', 'extract_params_schema')]
+    for cq, mn in targets:
+        f = prog.cls(cq).methods.get(mn)
+        if f is None:
+            raise AnalysisError(f'{cq}.{mn} not found')
+        ck.functions.add(f.qualname)
+        cfg = CFG(f, prog)
+        heads = [n for n in cfg.nodes if n.kind == 'next' and ('param' in norm(n.ast.iter) or 'param' in norm(n.ast.target))]
+        if not heads:
+            continue        # comprehension form: total by construction
+        exits = [x for h in heads for x in _loop_exits(cfg, h)]
+        ck.ob('EXCL-AGREE', f'{short(f.qualname)}: the walk over the parameters ends only by exhaustion', not exits)
+        for x in exits:
+            ck.finding('EXCL-AGREE', f.qualname, f'parameter walk left early: {norm(x.ast)[:30]}', f.module.rel, x.line,
+                       f'`{norm(x.ast)[:50]}` leaves the loop over the parameters: the parameters after an excluded one are never looked at, so they '
+                       f'are missing from the documents (or from the bound signature) although the other side knows them')
+    # docstring documenter: each exclusion reason alone is sufficient
+    dm = prog.cls('pjrpc.server.specs.extractors.docstring.DocstringSchemaExtractor').methods['extract_params_schema']
+    cfg = CFG(dm, prog)
+    conts = [n for n in cfg.stmt_nodes() if isinstance(n.ast, ast.Continue)]
+    in_t = pred_t = False
+    for c in cfg.nodes:
+        if c.kind != 'cond':
+            continue
+        is_in = isinstance(c.ast, ast.Compare) and isinstance(c.ast.ops[0], ast.In) and 'exclude' in norm(c.ast.comparators[0])
+        is_pred = isinstance(c.ast, ast.Call) and dotted(c.ast.func) == 'self._exclude_param'
+        if not (is_in or is_pred):
+            continue
+        for e in cfg.succ[c.id]:
+            if e.label == 'T' and (e.dst in conts or any(k.id in cfg.reachable(e.dst, edge_ok=lambda ed: ed.src.kind != 'cond') for k in conts) or e.dst in conts):
+                if is_in:
+                    in_t = True
+                else:
+                    pred_t = True
+    ok_d = in_t and pred_t
+    ck.ob('EXCL-AGREE', 'docstring documenter: a name listed in exclude is skipped, and so is a name the predicate selects (each alone)', ok_d)
+    if not ok_d:
+        ck.finding('EXCL-AGREE', dm.qualname, 'docstring exclusion needs both reasons', dm.module.rel, dm.node.lineno,
+                   f'a documented parameter must be skipped when its name is in `exclude` (skipped directly: {in_t}) and when the exclusion predicate '
+                   f'selects it (skipped directly: {pred_t}); with `and` the context parameter is published although the binder refuses it')
+    # OpenAPI: the three extractor loops agree on precedence
+    oa = prog.cls(OPENAPI)
+    prec = {}
+    for mn in ('_extract_request_schema', '_extract_response_schema', '_extract_errors_schema'):
+        f = oa.methods.get(mn)
+        if f is None:
+            continue
+        cfg = CFG(f, prog)
+        heads = [n for n in cfg.nodes if n.kind == 'next' and 'extractor' in norm(n.ast.iter)]
+        if len(heads) != 1:
+            continue
+        prec[mn] = 'first result wins' if _loop_exits(cfg, heads[0]) else 'last result wins'
+    ok_p = len(set(prec.values())) <= 1 and len(prec) >= 2
+    ck.ob('EXCL-AGREE', 'OpenAPI: request, response and error schemas are taken from the same (first answering) extractor', ok_p, sample=prec)
+    if not ok_p:
+        ck.finding('EXCL-AGREE', oa.qualname, f'extractor precedence differs: {prec}', oa.module.rel, oa.node.lineno,
+                   f'the extractor loops disagree on which extractor\'s answer is used ({prec}): the request parameters can come from a docstring '
+                   f'while the rest comes from the signature, so the published parameter list is not the bound one')
+
+
 def excluded_names_not_lazy(ck: Check, prog: Program) -> None:
     """EXCL-AGREE (every parameter is asked the same question): the collection of excluded names that the binder and the
     documenters test each parameter against is never a one-shot iterator."""
@@ -256,6 +337,7 @@ def run(ck: Check, prog: Program) -> None:
                    f'the params model lists parameters of kind {sorted(kept)}'
                    + (f': {extra} cannot be given by name, so a request built from the published names is refused with -32602' if extra else '')
                    + (f'; {missing} can be given by name but are not listed' if missing else ''))
+    _parameter_loops(ck, prog)
     excluded_names_not_lazy(ck, prog)
     # exclude expressions at the call sites
     sites: List[Tuple[FuncInfo, ast.Call, str]] = []
